@@ -36,6 +36,8 @@ pub struct Profile {
     pub p_drop: u32,
     pub p_panic: u32,
     pub p_wrong_kind: u32,
+    /// per mille of runs that carry the mass-free template (one commit freeing > 400 pages)
+    pub p_massfree: u32,
     pub p_panic_end: u32,
     pub deep: bool,
     pub page_4k_only: bool,
@@ -71,6 +73,7 @@ impl Profile {
             p_drop: 50,
             p_panic: 15,
             p_wrong_kind: 30,
+            p_massfree: 40,
             p_panic_end: 8,
             deep: true,
             page_4k_only: false,
@@ -82,6 +85,7 @@ impl Profile {
         match prop {
             "C01" => {
                 p.name = "crash";
+                p.p_massfree = 80;
                 p.w_reader = 4;
                 p.w_compact = 3;
                 p.w_integrity = 2;
@@ -92,6 +96,7 @@ impl Profile {
             }
             "C02" => {
                 p.name = "snapshot";
+                p.p_massfree = 150;
                 p.w_reader = 40;
                 p.w_rd = 25;
                 p.w_sp = 8;
@@ -119,6 +124,7 @@ impl Profile {
             }
             "C06" => {
                 p.name = "churn";
+                p.p_massfree = 120;
                 p.w_reader = 20;
                 p.w_sp = 10;
                 p.w_compact = 3;
@@ -127,6 +133,7 @@ impl Profile {
             }
             "C07" => {
                 p.name = "savepoint";
+                p.p_massfree = 80;
                 p.w_sp = 30;
                 p.w_spdrop = 6;
                 p.w_reopen = 5;
@@ -634,6 +641,44 @@ impl<'a> Gen<'a> {
         let mut steps = vec![];
         for _ in 0..n {
             steps.push(self.step());
+        }
+        // Mass-free template: redb records freed pages in chunks of 400 per transaction; ordinary
+        // steps rarely free that many in one commit, so some runs do it on purpose, with a reader
+        // on the snapshot before it, and look through that reader after later commits.
+        if !self.prof.page_4k_only && self.page <= 1024 && self.rng.chance(self.prof.p_massfree as u64, 1000) {
+            let name = (NAMES - 1) as u8;
+            if self.names[name as usize].is_none() || self.names[name as usize] == Some(Kind::TUB) {
+                self.names[name as usize] = Some(Kind::TUB);
+                let t = TRef { name, kind: Kind::TUB };
+                // the chunks count page *entries* (a multi-page value is one entry), so what is
+                // needed is many pages: values of 0.6 page, one per leaf
+                let len = self.page * 6 / 10;
+                let count = 405 + self.rng.range(0, 80);
+                let fill: Vec<Op> = (0..count).map(|i| Op::Insert { t, k: KeyVal::U(100_000 + i), v: self.val(len) }).collect();
+                let mk = |ops: Vec<Op>, durable: bool| Txn { durable, two_phase: false, quick_repair: false, ops, end: End::Commit, rev_drop: false };
+                let mut tpl = vec![Step::Txn(mk(fill, !self.rng.chance(1, 3)))];
+                let with_reader = self.rng.chance(3, 4);
+                if with_reader {
+                    tpl.push(Step::Reader(ROp::Begin));
+                }
+                let free_ops = match self.rng.below(3) {
+                    0 => vec![Op::Delete { t }],
+                    1 => (0..count).map(|i| Op::Remove { t, k: KeyVal::U(100_000 + i) }).collect(),
+                    _ => (0..count).map(|_| Op::PopFirst { t }).collect(),
+                };
+                tpl.push(Step::Txn(mk(free_ops, !self.rng.chance(1, 3))));
+                for _ in 0..self.rng.range(1, 3) {
+                    tpl.push(Step::Txn(self.txn()));
+                }
+                if with_reader {
+                    tpl.push(Step::Reader(ROp::Check { idx: 0 }));
+                }
+                let at = self.rng.usize(steps.len() + 1);
+                let tail = steps.split_off(at);
+                steps.extend(tpl);
+                steps.extend(tail);
+                self.names[name as usize] = None;
+            }
         }
         Plan { cfg, steps }
     }
